@@ -11,11 +11,14 @@ args = sys.argv[3:]
 tier = "quick"
 demo_pkg = None
 run_re = None
+store_as = n
+out = "/tmp/seed/%s-out" % pid
 for i, a in enumerate(args):
+    if a == "--src": out = args[i+1]
+    if a == "--store-as": store_as = args[i+1]
     if a == "--tier": tier = args[i+1]
     if a == "--demo-pkg": demo_pkg = args[i+1]
     if a == "--run": run_re = args[i+1]
-out = "/tmp/seed/%s-out" % pid
 clone = "/dev/shm/repo-m"
 env = dict(os.environ, GOFLAGS="-mod=mod", GOPROXY="off", GOSUMDB="off", GOTOOLCHAIN="local")
 
@@ -68,7 +71,7 @@ res["check_exit"] = rcc
 res["check_wall_s"] = round(time.time() - t0, 1)
 res["check_lines"] = [l[:400] for l in lines[:8]]
 sh("git checkout -- . && git clean -fdq", cwd=clone)
-sd = "/verif/seeded/%s-%s" % (pid, n)
+sd = "/verif/seeded/%s-%s" % (pid, store_as)
 os.makedirs(sd, exist_ok=True)
 shutil.copy(patch, os.path.join(sd, "patch.diff"))
 if os.path.exists(demo): shutil.copy(demo, os.path.join(sd, "demo_test.go"))
